@@ -558,9 +558,14 @@ def check_block_send_info(ctx):
     rets = [n for n in rules.func_stmts(normal.normalised(ctx, wait)) if isinstance(n, ast.Return)]
     ctx.require(len(rets) == 1, "BlockSendInfo.wait: unknown shape")
     rv = rets[0].value
+    if isinstance(rv, ast.Name):
+        rv = rules.expand_ast(wait.node, rv)  # the comparison may have been given a name first
     ok_member = None
-    if isinstance(rv, ast.Compare) and len(rv.ops) == 1 and isinstance(rv.ops[0], (ast.Eq, ast.Is)) and norm(rv.left) == "self._result":
-        ok_member = norm(rv.comparators[0])
+    atoms = cnd.canon(rv, True)  # `not r != X`, `r == X`, `r is X` all read: r equals X
+    if len(atoms) == 1:
+        (text_, pol), = atoms
+        if pol and text_.startswith("self._result == "):
+            ok_member = text_[len("self._result == "):]
     ctx.require(ok_member is not None, f"BlockSendInfo.wait: return `{norm(rv)}` is not a comparison of the stored result")
     ok = mapping[True] == ok_member and mapping[False] != ok_member
     ctx.ob("C10.P5", "BlockSendInfo", ok,
